@@ -1,12 +1,12 @@
 (* driver for the C07 model: reads case lines on stdin, prints "<id>\t<model output>".
    Only B lines are the model's business:
-     <id> B <ops '|'> ; calls ';' (prefix '!' = the list carries a ReqId) ; requests ','
+     <id> B <flags: r = isReplaying, s = from the cluster syncer, - = none> <ops '|'> ; calls ';' (prefix '!' = the list carries a ReqId) ; requests ','
      request = R.<namehex>.<pk>.<nargs>.<valid 0/1>.<class>.<errhash> | X.<class>.<errhash> | G.<class>.<errhash>
    Output: the batch-operator calls the model makes, then " # ", then every request's reply kind. *)
 open Model
 open Vio
 
-let cls_code c = match c with "o" -> 0 | "a" -> 1 | _ -> 2
+let cls_code c = match c with "o" -> 0 | "a" -> 1 | "c" -> 3 | _ -> 2
 let body cls eh =
   let h = if eh = "-" then 0 else int_of_string ("0x" ^ eh) in
   n_of_int (4 * h + cls_code cls)
@@ -37,7 +37,8 @@ let ev_tok = function
 let () =
   read_lines stdin (fun line ->
     match split_on '\t' line with
-    | id :: "B" :: body :: _ ->
+    | id :: "B" :: flags :: body :: _ ->
+      let replaying = String.contains flags 'r' and syncer = String.contains flags 's' in
       let next = ref 0 in
       let ops = if body = "" then [] else split_on '|' body in
       let p = List.map (fun op ->
@@ -48,7 +49,7 @@ let () =
               let rs = List.map (fun r -> let i = !next in incr next; parse_req i r) (split_on ',' c) in
               Some { cflag = fl; creqs = rs }) (split_on ';' op)) ops in
       let n = !next in
-      (match run_trace p with
+      (match run_trace_gen replaying syncer p with
        | None -> Printf.printf "%s\tpanic\n" id
        | Some ((_, out), evs) ->
          let kinds = List.init n (fun i ->
